@@ -36,6 +36,9 @@ old, new = json.load(open(sys.argv[1])), json.load(open(sys.argv[2]))
 for k in ("history", "summary", "needs"):
     if k in old:
         new[k] = old[k]
+if new.get("baseline_tests_rc_with_change") == "skipped" and old.get("baseline_tests_rc_with_change") not in (None, "skipped"):
+    new["baseline_tests_run"] = old.get("baseline_tests_run")
+    new["baseline_tests_rc_with_change"] = old.get("baseline_tests_rc_with_change")
 prev = old.pop("previous_evaluations", [])
 prev.append({"repo_head": old.get("repo_head"), "checks": old.get("checks"), "demo_rc_with_change": old.get("demo_rc_with_change")})
 new["previous_evaluations"] = prev
